@@ -52,6 +52,18 @@ def run_job(job):
                 scenarios.append(dict(base, fault=f"panic@step={rng.randint(1, 700)}",
                                       taken=rng.randint(0, base["k"]),
                                       strategy=rng.choice(STRATEGIES), pseed=rng.getrandbits(48)))
+            # Genuine failures through the system-call fault seam (errors wild meets in real use,
+            # reached through its real error paths): an input or the output cannot be opened, the
+            # output cannot be written, fork() fails (in-process fallback), pipe() fails.
+            n_in = len(wl.inputs)
+            sysfaults = [f"open#{rng.randint(1, n_in)}=EMFILE", f"open#{n_in + 1}=ENOSPC",
+                         "mmaprw#1=ENOMEM;write#1=ENOSPC", "mmaprw#1=ENODEV;write#1=short:100;write#2=EIO",
+                         f"statx#{rng.randint(1, 3 * n_in)}=EIO"]
+            if base["fork"]:
+                sysfaults += ["fork#1=EAGAIN", "pipe#1=EMFILE", "fork#1=ENOMEM;open#2=EACCES"]
+            for sf in sysfaults:
+                scenarios.append(dict(base, fault=None, sysfault=sf, taken=rng.randint(0, base["k"]),
+                                      strategy=rng.choice(STRATEGIES), pseed=rng.getrandbits(48)))
         for sc in scenarios:
             wl.n += 1
             d = os.path.join(wl.root, f"d{wl.n}")
@@ -76,8 +88,12 @@ def run_job(job):
                 if not sc["fork"]:
                     argv.append("--no-fork")
                 plan = Plan(sc["pseed"], sc["strategy"], faults=[sc["fault"]] if sc["fault"] else [])
-                r = sim_link(argv, d, plan, tag=f"r{wl.n}", ctl_dir=wl.ctl,
-                             env_extra={"MAKEFLAGS": makeflags, "CARGO_MAKEFLAGS": None},
+                env_extra = {"MAKEFLAGS": makeflags, "CARGO_MAKEFLAGS": None}
+                syslog = os.path.join(wl.ctl, f"r{wl.n}.syslog")
+                if sc.get("sysfault"):
+                    env_extra.update({"LD_PRELOAD": family_fs.SIMSYS, "WILD_SIM_SYSFAULT": sc["sysfault"],
+                                      "WILD_SIM_SYSFAULT_LOG": syslog})
+                r = sim_link(argv, d, plan, tag=f"r{wl.n}", ctl_dir=wl.ctl, env_extra=env_extra,
                              pass_fds=pass_fds)
                 check_sim_health(r, f"js job {index} scenario {sc}")
                 left = drain(rfd)
@@ -99,6 +115,13 @@ def run_job(job):
             if not res["samples"]:
                 res["samples"].append(desc)
             fk = sc["fault"].split("@")[0] if sc["fault"] else "none"
+            if sc.get("sysfault"):
+                fk = "sys-" + "+".join(sorted(set(x.split("#")[0] for x in sc["sysfault"].split(";"))))
+                _, fired = family_fs.read_syslog(syslog)
+                if fired:
+                    c["fired_sysfault"] = c.get("fired_sysfault", 0) + 1
+                if r.status != 0:
+                    c["sysfault_made_link_fail"] = c.get("sysfault_made_link_fail", 0) + 1
             c[f"outcome_{fk}"] = c.get(f"outcome_{fk}", 0) + 1
             c[f"style_{sc['style']}"] = c.get(f"style_{sc['style']}", 0) + 1
             c["fork" if sc["fork"] else "nofork"] = c.get("fork" if sc["fork"] else "nofork", 0) + 1
@@ -136,7 +159,8 @@ def run_job(job):
                 viol("tokens-not-conserved",
                      f"js/leak/{sc['style']}/{'fork' if sc['fork'] else 'nofork'}/{fk}",
                      f"{k - taken} tokens before, {left} after wild and its worker exited (status "
-                     f"{r.status}, fault {sc['fault']}, fired {r.summary.get('faults_fired')})")
+                     f"{r.status}, fault {sc['fault'] or sc.get('sysfault')}, fired "
+                     f"{r.summary.get('faults_fired')})")
     finally:
         wl.close()
     return res
